@@ -60,6 +60,7 @@ const (
 	OpFAbs
 	OpFSqrt
 	OpFToF32      // round to float32 and back (models float32 conversion)
+	OpFSame       // Bool: SMT equality on the FP sort (NaN = NaN, +0 != -0): "prints alike"
 )
 
 var opSMT = map[Op]string{
@@ -266,6 +267,16 @@ func (tt *TermTable) Bin(op Op, a, b *Term) *Term {
 	}
 	if a.IsConst() && b.IsConst() {
 		return tt.Const(w, foldBin(op, w, a.K, b.K))
+	}
+	if op == OpBvAdd && a.IsConst() && !b.IsConst() {
+		a, b = b, a
+	}
+	if op == OpBvSub && b.IsConst() {
+		// x - c  ==  x + (-c): one normal form for offset chains
+		return tt.Bin(OpBvAdd, a, tt.Const(w, -b.K))
+	}
+	if op == OpBvAdd && b.IsConst() && a.Op == OpBvAdd && a.Args[1].IsConst() {
+		return tt.Bin(OpBvAdd, a.Args[0], tt.Const(w, a.Args[1].K+b.K))
 	}
 	switch op {
 	case OpBvAdd, OpBvOr, OpBvXor:
@@ -561,6 +572,16 @@ func (tt *TermTable) FIsNaN(a *Term) *Term {
 	}
 	return tt.intern(&Term{Op: OpFIsNaN, W: 0, Args: []*Term{a}})
 }
+func (tt *TermTable) FSame(a, b *Term) *Term {
+	if a == b {
+		return tt.tru
+	}
+	if a.IsFConst() && b.IsFConst() {
+		fx, fy := math.Float64frombits(a.K), math.Float64frombits(b.K)
+		return tt.BoolConst(a.K == b.K || (fx != fx && fy != fy))
+	}
+	return tt.intern(&Term{Op: OpFSame, W: 0, Args: []*Term{a, b}})
+}
 func (tt *TermTable) FFromBits(a *Term) *Term {
 	if a.IsConst() {
 		return tt.FConstBits(a.K)
@@ -666,6 +687,12 @@ func (t *Term) SMT(sb *strings.Builder, defs map[*Term]string) {
 		sb.WriteString("(= ((_ to_fp 11 53) ")
 		t.Args[0].SMT(sb, defs)
 		sb.WriteString(") ")
+		t.Args[1].SMT(sb, defs)
+		sb.WriteString(")")
+	case OpFSame:
+		sb.WriteString("(= ")
+		t.Args[0].SMT(sb, defs)
+		sb.WriteString(" ")
 		t.Args[1].SMT(sb, defs)
 		sb.WriteString(")")
 	case OpFToF32:
@@ -861,6 +888,9 @@ func (m Model) Eval(t *Term, cache map[*Term]uint64) (uint64, bool) {
 		r = uint64(int64(f(a[0]))) & mask(t.W)
 	case OpFToF32:
 		r = math.Float64bits(float64(float32(f(a[0]))))
+	case OpFSame:
+		fx, fy := f(a[0]), f(a[1])
+		r = b2u(a[0] == a[1] || (fx != fx && fy != fy))
 	case OpFToBitsEq:
 		x, y := a[0], a[1]
 		fx, fy := f(x), f(y)
